@@ -68,6 +68,8 @@ impl ImmutContext<'_> {
 impl UnnormalizedMachineBuilder<'_> {
     fn build(mut self) -> UnnormalizedMachine {
         while let Some(state_index) = self.queue.pop_front() {
+            #[cfg(feature = "verif")]
+            crate::verif::record(|| crate::verif::Event::BuilderPop(state_index.0));
             self.enqueue_transition_targets(state_index);
         }
         UnnormalizedMachine {
@@ -151,7 +153,18 @@ impl UnnormalizedMachineBuilder<'_> {
 
     fn enqueue_transition_target(&mut self, state_index: StateIndex, symbol: &Symbol) {
         let target = self.get_transition_target(state_index, symbol);
+        #[cfg(feature = "verif")]
+        let verif_before = (self.states.len(), self.queue.len());
         let target_index = self.enqueue_state_if_needed(target);
+        #[cfg(feature = "verif")]
+        crate::verif::record(|| crate::verif::Event::BuilderTarget {
+            from: state_index.0,
+            symbol: symbol.clone(),
+            to: target_index.0,
+            is_new: self.states.len() != verif_before.0,
+            grew: self.states.len() == verif_before.0 && self.queue.len() != verif_before.1,
+            items_after: self.state(target_index).items.to_vec(),
+        });
         let transition = Transition {
             from: state_index,
             to: target_index,
